@@ -180,13 +180,21 @@ def simd_rules(r, body):
     body = r.sub("R8_simd_type", r"typename\s+detail::simd_vector<Float>::type", "VP_SIMD_T", body)
     body = r.sub("R8_simd_init", r"detail::simd_vector<Float>::init\(", "VP_SIMD_INIT(", body)
     body = r.sub("R9_vector_count", r"const unsigned int VC\s*=\s*vectorCountHelper<D>::VC;",
-                 "const unsigned int VC = ((D+1) / PHOTOSPLINE_VECTOR_SIZE) + ((D+1) % PHOTOSPLINE_VECTOR_SIZE ? 1 : 0);", body)
+                 lambda m: "const unsigned int VC = (%s);" % vector_count_expr(), body)
     return body
 
-def check_vector_count_helper():
+def vector_count_expr():
+    """R9: the initialiser of `vectorCountHelper<D>::VC` (a C expression in D and PHOTOSPLINE_VECTOR_SIZE) is taken verbatim
+    from the header on every run and substituted where the cores read `vectorCountHelper<D>::VC`"""
     s = X.strip_comments(src(MULTI_H))
-    if not re.search(r"static constexpr unsigned int VC =\s*\(\(D\+1\) / PHOTOSPLINE_VECTOR_SIZE\)\s*\+ \(\(D\+1\) % PHOTOSPLINE_VECTOR_SIZE \? 1 : 0\);", s):
-        raise ExtractionError("vectorCountHelper changed: R9 transcription out of date")
+    m = re.search(r"struct vectorCountHelper\s*\{\s*static constexpr unsigned int VC\s*=\s*([^;]*?);\s*\}", s)
+    if not m: raise ExtractionError("vectorCountHelper<D>::VC not found in bspline_multi.h")
+    e = " ".join(m.group(1).split())
+    if not re.fullmatch(r"[D0-9A-Z_ +\-*/%()?:<>=!&|]+", e): raise ExtractionError("vectorCountHelper<D>::VC: initialiser is not a plain integer expression in D: " + e)
+    return e
+
+def check_vector_count_helper():
+    vector_count_expr()
 
 def vector_core(name, D=None, O=None, orders=None, cname=None):
     s = src(MULTI_H)
